@@ -29,7 +29,8 @@ mod verif_nx_filefmt {
         s.encode_utf16().flat_map(|u| if le { u.to_le_bytes() } else { u.to_be_bytes() }).collect()
     }
 
-    const ALPHA: [&str; 8] = ["a", "\u{e9}", "\u{20ac}", "\u{1F600}", "\n", ";", "\u{3000}", "\u{FEFF}"];
+    // one character per UTF-16 shape: BMP, first and last code point of plane 1, planes 2 and 16 (surrogate pairs with high bits set)
+    const ALPHA: [&str; 11] = ["a", "\u{e9}", "\u{20ac}", "\u{1F600}", "\n", ";", "\u{3000}", "\u{FEFF}", "\u{10000}", "\u{20BB7}", "\u{10FFFF}"];
 
     fn texts(f: &mut dyn FnMut(&str)) {
         f("");
